@@ -15,15 +15,16 @@ from tools import vlib
 from tools.vlib import Outcome, sx
 from tools.props import c06_gen as gen
 from tools.props import c06_ts as tsread
+from tools.props import c06_routes as routes
 
 MANIFEST = {
-    "level_text": "Coq theorems (Properties/C06.v, 28 theorems, no axioms) about a Gallina transcription of serde_parser.rs (skip by substring test, rename / rename_all by the whole-key scanner find_key / written_value on the proc_macro2 token string), struct_parser.rs (unraw names, skip filter for fields and variants), NamingContext::apply_naming_convention / compute_field_name / compute_variant_name and serde-rename-rule's apply_to_field / apply_to_variant: for every configured default_field_case, container kind, container rename_all, ASCII identifier (plain or raw) and attribute list (rename = any string, skip, any other name / name = any string, in any order, in one or several #[serde] attributes) in every legal serde spelling (rename = v, rename(serialize = v, deserialize = w), likewise rename_all, other container keys anywhere), for unit / tuple / struct variants, outside four narrow recorded classes (C06-2, -3, -4, -5) and the configuration class C06-7 the emitted names are exactly serde's wire names (serde_derive case.rs apply_to_field / apply_to_variant, item rename wins, absent iff skip) (C06_names_cfg; C06_names for the default configuration, where C06-7 is empty); other attributes are inert there; each class has a computed counterexample; the run-time oracle is proved exact (C06_oracle_exact). String level, every byte string: js_unescape inverts escape_js, a quoted key or enum literal lexes (Spec/TsLex) to one string token whose decoded body is the name, the key token before the colon decodes to the name whichever form ts_key chose, and for the enum alias template the text of any non-empty literal list lexes to its tokens and the type parser plus lits_of_ty read exactly the names back. Tied to /repo on every run: ~10^4 containers through the real StructParser, FieldContext and both generators (keys read back from types.ts) against the extracted model and oracle, and the specification against the real serde_derive on 18 containers.",
+    "level_text": "Coq theorems (Properties/C06.v, 28 theorems, no axioms) about a Gallina transcription of serde_parser.rs (skip by substring test, rename / rename_all by the whole-key scanner find_key / written_value on the proc_macro2 token string), struct_parser.rs (unraw names, skip filter for fields and variants), NamingContext::apply_naming_convention / compute_field_name / compute_variant_name and serde-rename-rule's apply_to_field / apply_to_variant: for every configured default_field_case, container kind, container rename_all, ASCII identifier (plain or raw) and attribute list (rename = any string, skip, any other name / name = any string, in any order, in one or several #[serde] attributes) in every legal serde spelling (rename = v, rename(serialize = v, deserialize = w), likewise rename_all, other container keys anywhere), for unit / tuple / struct variants, outside four narrow recorded classes (C06-2, -3, -4, -5) and the configuration class C06-7 the emitted names are exactly serde's wire names (serde_derive case.rs apply_to_field / apply_to_variant, item rename wins, absent iff skip) (C06_names_cfg; C06_names for the default configuration, where C06-7 is empty); other attributes are inert there; each class has a computed counterexample; the run-time oracle is proved exact (C06_oracle_exact). String level, every byte string: js_unescape inverts escape_js, a quoted key or enum literal lexes (Spec/TsLex) to one string token whose decoded body is the name, the key token before the colon decodes to the name whichever form ts_key chose, and for the enum alias template the text of any non-empty literal list lexes to its tokens and the type parser plus lits_of_ty read exactly the names back. Tied to /repo on every run (library API, the real CLI binary through init / generate / -c / tauri.conf.json, and the build-script entry point): ~10^4 containers through the real StructParser, FieldContext and both generators (keys read back from types.ts) against the extracted model and oracle, and the specification against the real serde_derive on 18 containers.",
     "design_ref": "DESIGN.md section 5 C06",
     "level_note": "Identifiers are ASCII: field rules and the PascalCase / lowercase / UPPERCASE / camelCase variant rules use only ASCII operations and the byte-level model is exact for them on any UTF-8 identifier, but SnakeCase-based variant rules call char::is_uppercase (Unicode), for which no table exists in the development; non-ASCII identifiers are therefore left out of the domain rather than half covered. String level: proved per token (key, literal) and for the whole enum alias right-hand side; the interface member list, the z.object property list and the z.enum array are not carried through p_members / p_exlist / p_item (the lexing of their keys and literals is covered by C06_key_token / C06_lex_literal, the rest is checked by the run-time read-back only). ts_key's Unicode test is_identifier_name is a parameter (bare only for identifier bytes). The five sequential replaces of escape_js are taken as the character-wise map (proved for the identical escape_js_string by C11's escape_charwise). The specification of serde's rules is a transcription of serde_derive's case.rs, compared on every run with types derived by the real serde_derive on 18 fixed containers (finite validation). The tie between model and code is differential (bounded).",
     "technique": "Rocq/Coq proof over hand-written model + correspondence check (extracted OCaml vs Rust harness)"
 }
 
-RULE = ("spellings: {struct, enum} x 9 container rules x 12 spellings of the container attributes (rename_all = .., rename_all(serialize = .., deserialize = ..) same / one-sided / different / either order, other keys before and after, split attributes) x unit / tuple / struct variants on multi-word identifiers; every stream: three white-space styles, variant shapes, rename(serialize = .., deserialize = ..); exhaustive: 9 container rules x {struct, enum} x every item-attribute shape of the generator (none, rename, skip, "
+RULE = ("routes: 4 containers x 11 configuration routes (init, init then generate, init -v zod, init -o file then generate -c, generate -c, tauri.conf.json in three places, from_tauri_config, BuildSystem with tauri.conf.json / typegen.json) x the default_field_case written (absent / 4 values incl. an unknown one), real CLI binary in a sandbox; types: 17 field types x 3 rules x 4 attribute shapes; spellings: {struct, enum} x 9 container rules x 12 spellings of the container attributes (rename_all = .., rename_all(serialize = .., deserialize = ..) same / one-sided / different / either order, other keys before and after, split attributes) x unit / tuple / struct variants on multi-word identifiers; every stream: three white-space styles, variant shapes, rename(serialize = .., deserialize = ..); exhaustive: 9 container rules x {struct, enum} x every item-attribute shape of the generator (none, rename, skip, "
         "skip_serializing_if, default, default = s, pairs in both orders, split over two #[serde]) x 16 identifier shapes, one "
         "item per container (quick: every third (shape, identifier) pair per rule; thorough: all); random: containers of 1-5 items with 0-3 attributes each over a value alphabet containing skip / "
         "rename / quotes / backslashes / non-ASCII; malformed: out-of-domain attribute text (correspondence only); real-serde: the "
@@ -203,6 +204,9 @@ def real_serde_outcomes():
         "data": {"kind": "enum", "cattrs": [[["ra", "snake_case"], ["kv", "rename_all_fields", "camelCase"]]], "items": [
             {"ident": "TaskStarted", "attrs": []}, {"ident": "Moved", "attrs": []}, {"ident": "QueueEmpty", "attrs": []},
             {"ident": "Finished", "attrs": [[["rename", "DONE"]]]}]},
+        "types": {"kind": "struct", "cattrs": [[["ra", "camelCase"]]], "items": plain(
+            ["plain_field", "marker_a", "marker_b", "unit_field", "empty_arr", "boxed_val", "cow_val", "str_ref", "opt_unit", "bytes_vec", "pair_val"])
+            + [{"ident": "skipped_marker", "attrs": [[["skip"]]]}]},
         "fieldsonly": {"kind": "enum", "cattrs": [[["kv", "rename_all_fields", "camelCase"]]], "items": plain(["TaskStarted", "Idle"])},
     }
     for k, c in extra.items():
@@ -214,6 +218,43 @@ def real_serde_outcomes():
     for c, n, m in zip(cases, seen, res):
         agrees = m[4][0] == "true"
         outs.append(Outcome(c, agrees, True, None, {"real_serde": n, "spec": list(m[3]), "note": "specification vs real serde_derive"}, True))
+    return outs
+
+
+def evaluate_routes(cases):
+    """configuration routes (tools/props/c06_routes.py): the real CLI binary / BuildSystem / library run in a
+    sandbox project; keys read back from the types.ts each route wrote; model and oracle evaluated with the
+    default_field_case the route is supposed to carry."""
+    if not cases:
+        return []
+    res = vlib.pmap(routes.run_route, cases)
+    key_req, key_idx = [], []
+    for i, r in enumerate(res):
+        if isinstance(r.get("types"), str):
+            key_req.append(sx(["T0", r["types"]]))
+            key_idx.append(i)
+    key_res = dict(zip(key_idx, vlib.run_runner("c06-keys", key_req)))
+    req, obs = [], []
+    for i, (c, r) in enumerate(zip(cases, res)):
+        names = None
+        if isinstance(r.get("types"), str):
+            names, _how = read_ts(c["kind"], r["mode"], r["types"], key_res.get(i))
+        obs.append(names)
+        req.append(sx([c["dfc"], container_sx(c), [names if names is not None else ["<unreadable>"]]]))
+    outs = []
+    for c, r, names, m in zip(cases, res, obs, vlib.run_runner("c06-eval", req)):
+        if m and m[0] == "runner-error":
+            raise vlib.BuildError("runner: %s (case %s)" % (m, json.dumps(c)))
+        model, in_dom, classes, spec, oks, _mt, _mc = m
+        model_names = list(model[1])
+        kf = next((kid for kid, flag in zip(KF_IDS, classes) if flag == "true"), None)
+        case = {k: c[k] for k in ("kind", "cattrs", "items", "dfc", "route", "dfc_written") if k in c}
+        det = {"impl": {"keys": names}, "model": model_names, "serde": list(spec), "route": c["route"], "in_domain": in_dom == "true",
+               "setting_written": c.get("dfc_written"), "error": r.get("error"), "section_written_by_init": r.get("section_written"),
+               "classes": dict(zip(KF_IDS, classes)), "rust": gen.rust_source(c)}
+        corr = names is not None and names == model_names
+        ok = names is not None and oks[0] == "true"
+        outs.append(Outcome(case, corr, ok, kf, det, True))
     return outs
 
 
@@ -280,15 +321,23 @@ def run_streams(rep):
     streams = [
         ("corpus", corpus_cases()),
         ("spellings", gen.spellings()),
+        ("types", gen.typed_fields()),
         ("exhaustive", gen.exhaustive(thorough)),
         ("random", gen.random_cases(rng, 60000 if thorough else 4000)),
         ("config", gen.config_cases(rng, 2000 if thorough else 300)),
         ("malformed", gen.malformed_cases(rng, 5000 if thorough else 500)),
     ]
     for name, cases in streams:
+        route_cases = [c for c in cases if "route" in c]
+        if route_cases:                     # corpus entries that name a configuration route
+            vlib.build_repo_bin()
+            rep.add(name, evaluate_routes(route_cases))
+            cases = [c for c in cases if "route" not in c]
         outs = evaluate(cases)
         summarise(rep, name, outs)
         rep.add(name, outs)
+    vlib.build_repo_bin()
+    rep.add("routes", evaluate_routes(routes.route_cases(thorough)))
     rep.add("real-serde", real_serde_outcomes())
 
 
@@ -298,6 +347,10 @@ def replay(rep, payload):
     items = payload.get("disagreeing_cases") or [payload]
     with RunSandbox():
         for it in items:
+            if "route" in it["case"]:
+                vlib.build_repo_bin()
+                rep.add("routes", evaluate_routes([it["case"]]))
+                continue
             outs = evaluate([it["case"]])
             summarise(rep, it.get("stream", "replay"), outs)
             rep.add(it.get("stream", "replay"), outs)
